@@ -317,6 +317,33 @@ func (e *Enc) structSort(n *types.Named, st *types.Struct) string {
 	return name
 }
 
+// constArray builds an array whose every element is the zero value of the
+// element sort. cvc5 only accepts literal values in (as const ...); for other
+// element sorts a fresh array constant with a defining axiom is used.
+func (e *Enc) constArray(arrSort, elemSort string, elemT types.Type) string {
+	z := e.zeroSort(elemSort, elemT)
+	if isLiteralValue(z) {
+		return fmt.Sprintf("((as const %s) %s)", arrSort, z)
+	}
+	name := "zarr!" + sanitize(arrSort)
+	e.decl(fmt.Sprintf("(declare-const %s %s)", name, arrSort))
+	idx := firstSort(arrSort[len("(Array "):])
+	e.decl(fmt.Sprintf("(assert (forall ((i %s)) (! (= (select %s i) %s) :pattern ((select %s i)))))", idx, name, z, name))
+	return name
+}
+
+func isLiteralValue(z string) bool {
+	if z == "true" || z == "false" {
+		return true
+	}
+	for _, c := range z {
+		if !(c >= '0' && c <= '9' || c == '.' ) {
+			return false
+		}
+	}
+	return z != ""
+}
+
 // zero value of a sort/type
 func (e *Enc) zero(t types.Type) string {
 	return e.zeroSort(e.sortOf(t), t)
@@ -360,7 +387,7 @@ func (e *Enc) zeroSort(s string, t types.Type) string {
 				et = a.Elem()
 			}
 		}
-		return fmt.Sprintf("((as const %s) %s)", s, e.zeroSort(es, et))
+		return e.constArray(s, es, et)
 	}
 	if strings.HasPrefix(s, "O_") {
 		return "zero!" + s
